@@ -293,25 +293,35 @@ func (wg *WaitGroup) Go(f func()) {
 	})
 }
 
-// Map wraps sync.Map with a scheduling point before each operation.
+// Map wraps sync.Map with a scheduling point before each operation and another one after each storing operation
+// (an entry published before the value behind it is complete is only observable there).
 type Map struct{ m sync.Map }
 
 func (m *Map) Load(k any) (any, bool)      { simrt.Yield(siteMap); return m.m.Load(k) }
-func (m *Map) Store(k, v any)              { simrt.Yield(siteMap); m.m.Store(k, v) }
+func (m *Map) Store(k, v any)              { simrt.Yield(siteMap); m.m.Store(k, v); simrt.Yield(siteMap) }
 func (m *Map) Delete(k any)                { simrt.Yield(siteMap); m.m.Delete(k) }
 func (m *Map) Range(f func(k, v any) bool) { simrt.Yield(siteMap); m.m.Range(f) }
 func (m *Map) LoadOrStore(k, v any) (any, bool) {
 	simrt.Yield(siteMap)
-	return m.m.LoadOrStore(k, v)
+	a, loaded := m.m.LoadOrStore(k, v)
+	simrt.Yield(siteMap)
+	return a, loaded
 }
 func (m *Map) LoadAndDelete(k any) (any, bool) {
 	simrt.Yield(siteMap)
 	return m.m.LoadAndDelete(k)
 }
-func (m *Map) Swap(k, v any) (any, bool) { simrt.Yield(siteMap); return m.m.Swap(k, v) }
+func (m *Map) Swap(k, v any) (any, bool) {
+	simrt.Yield(siteMap)
+	a, b := m.m.Swap(k, v)
+	simrt.Yield(siteMap)
+	return a, b
+}
 func (m *Map) CompareAndSwap(k, o, n any) bool {
 	simrt.Yield(siteMap)
-	return m.m.CompareAndSwap(k, o, n)
+	ok := m.m.CompareAndSwap(k, o, n)
+	simrt.Yield(siteMap)
+	return ok
 }
 func (m *Map) CompareAndDelete(k, o any) bool {
 	simrt.Yield(siteMap)
